@@ -1490,6 +1490,16 @@ impl Analyzable for Comparison
 		let left = self.left.analyze(typer);
 		typer.contextual_type = left.value_type().or(contextual_type);
 		let right = self.right.analyze(typer);
+		// An operand that is still untyped takes the type of the other operand.
+		let left = match (left.value_type(), right.value_type())
+		{
+			(None, Some(Ok(vt))) =>
+			{
+				typer.contextual_type = Some(Ok(vt));
+				left.analyze(typer)
+			}
+			_ => left,
+		};
 		Comparison {
 			op: self.op,
 			left,
@@ -1637,6 +1647,16 @@ impl Analyzable for Expression
 				let left = left.analyze(typer);
 				typer.contextual_type = left.value_type();
 				let right = right.analyze(typer);
+				// An operand that is still untyped takes the type of the other operand.
+				let left = match (left.value_type(), right.value_type())
+				{
+					(None, Some(Ok(vt))) =>
+					{
+						typer.contextual_type = Some(Ok(vt));
+						left.analyze(typer)
+					}
+					_ => left,
+				};
 				Expression::Binary {
 					op,
 					left: Box::new(left),
